@@ -230,6 +230,10 @@ def cases(spec, ctx):
         yield _rand_hap_case(rng, ctx.tier)
     for _ in range(sc["NV"] // n + 1):
         yield _rand_vcf_case(rng)
+    # scale: two haplotypes at one site whose (long) inserted alleles have the same length and the same ends and differ only in the middle
+    if i < 4:
+        lrng = __import__("random").Random(f"C13-long:{ctx.seed}:{i}")
+        yield {"kind": "long-alt", "n": lrng.choice([3000, 9000, 20000, 70000]), "seed": lrng.randrange(1 << 30), "chunk": bool(i % 2)}
 
 
 # ------------------------------------------------------------------------------------------------------------------
@@ -469,6 +473,18 @@ def _check_alt(ctx, hap):
               edits=hap.H.edits, got=got, want=hap.H.alt, exc=repr(e)[:200] if e else None)
     ok, d = parent_ok(hap.collection, hap.H.alt)
     ctx.check("alt.parent", ok, key=("collection", "chunk" if hap.chunk else "chrom"), edits=hap.H.edits, **d)
+    # the same haplotype arriving through the data model (what the VCF parser and the schema loaders produce): model -> collection on
+    # the same parent is the same haplotype
+    from inscripta.biocantor.io.models import VariantIntervalCollectionModel
+
+    def via_model():
+        m = VariantIntervalCollectionModel.Schema().load(hap.collection.to_dict())
+        return m.to_variant_interval_collection(hap.parent)
+
+    vc2, e = ctx.call(via_model)
+    got, e2 = ctx.call(lambda: str(vc2.alternative_genomic_sequence)) if e is None else (None, e)
+    ctx.check("alt.collection", e2 is None and got == hap.H.alt, key=("via-data-model", _multi(hap.H.edits), "chunk" if hap.chunk else "chrom"),
+              edits=hap.H.edits, got=got, want=hap.H.alt, exc=repr(e2)[:200] if e2 else None)
 
 
 def _check_lifts(ctx, case, hap, blocks, strand, form, singles=True):
@@ -823,6 +839,53 @@ def _run_vcf(case, ctx):
                       exc=repr(e2)[:200] if e2 else None)
 
 
+def _run_long_alt(case, ctx):
+    """Two insertions at the same site, equally long, identical for the first and last thousands of bases, different in the middle: two
+    different haplotypes - different identifiers, two entries of the haplotype map, each with its own alternative sequence."""
+    import random
+
+    from inscripta.biocantor.gene import GeneInterval, TranscriptInterval
+    from inscripta.biocantor.gene.collections import AnnotationCollection
+    from inscripta.biocantor.gene.variants import VariantInterval, VariantIntervalCollection
+    from inscripta.biocantor.location.strand import Strand
+
+    r = random.Random(case["seed"])
+    n = case["n"]
+    ref = "".join(r.choice("ACGT") for _ in range(40))
+    start = 1000 if case["chunk"] else 0
+    body = [r.choice("ACGT") for _ in range(n)]
+    alt1 = "".join(body)
+    mid = n // 2
+    body[mid] = {"A": "C", "C": "G", "G": "T", "T": "A"}[body[mid]]
+    alt2 = "".join(body)
+    ctx.note(("long-alt", n, case["chunk"]), nontrivial=True, klass="long-insertion-twins")
+
+    def build():
+        parent = _parent(ref, start, case["chunk"])
+        vcs = [VariantIntervalCollection([VariantInterval(start + 10, start + 11, ref[10] + alt, "insertion", parent_or_seq_chunk_parent=parent)],
+                                         parent_or_seq_chunk_parent=parent) for alt in (alt1, alt2)]
+        gene = GeneInterval([TranscriptInterval([start + 2], [start + 30], Strand.PLUS, parent_or_seq_chunk_parent=parent)], parent_or_seq_chunk_parent=parent)
+        ac = AnnotationCollection(genes=[gene], variant_collections=vcs, parent_or_seq_chunk_parent=parent)
+        return vcs, ac
+
+    out, exc = ctx.call(build)
+    if exc is not None:
+        ctx.check("incorporate.haplotype-map", False, key=("long-alt", "raised", type(exc).__name__), exc=repr(exc)[:300], n=n)
+        return
+    vcs, ac = out
+    g1, g2 = vcs[0].guid, vcs[1].guid
+    v1, v2 = vcs[0].variant_intervals[0].guid, vcs[1].variant_intervals[0].guid
+    ctx.check("incorporate.haplotype-map", g1 != g2 and v1 != v2, key=("long-alt", "twins-share-an-identifier"), n=n, collection_guids_equal=g1 == g2, variant_guids_equal=v1 == v2)
+    m = ac.alternative_haplotype_mapping or {}
+    ctx.check("incorporate.haplotype-map", len(m) == 2 and all(len(v) == 1 for v in m.values()), key=("long-alt", "map-entries"), n=n,
+              got={str(k): len(v) for k, v in m.items()})
+    for vc, alt in zip(vcs, (alt1, alt2)):
+        want = ref[:10] + ref[10] + alt + ref[11:]
+        got, e = ctx.call(lambda: str(vc.alternative_genomic_sequence))
+        ctx.check("alt.collection", e is None and got == want, key=("long-alt", "value"), n=n, got_len=len(got) if got else None, want_len=len(want),
+                  first_difference=next((j for j, (a, b) in enumerate(zip(got or "", want)) if a != b), None), exc=repr(e)[:200] if e else None)
+
+
 def run_case(case, ctx):
     k = case["kind"]
     if k == "hap":
@@ -831,6 +894,8 @@ def run_case(case, ctx):
         return _run_sweep(case, ctx)
     if k == "vcf":
         return _run_vcf(case, ctx)
+    if k == "long-alt":
+        return _run_long_alt(case, ctx)
     from bcv.core import HarnessError
 
     raise HarnessError(f"unknown kind {k}")
